@@ -127,6 +127,9 @@ def run_verus_part(builder=None):
         out['inconclusive'] = 'verus verified %d functions but %d real functions were spliced' % (out['verified'], len(log.real_fns))
         if not fails:
             return out
+    if fails:
+        fails, dropped, notes = common.confirm_failures_in_isolation(path, res, fails)
+        out['unstable_dropped'] = notes
     other = fails
     for f in other:
         name, pick, clause = loc.name_failure(f)
